@@ -53,6 +53,7 @@ type Frame struct {
 	freeT    map[*ssa.FreeVar]Term
 	loops    []*loopInfo
 	top      bool
+	curBlock *ssa.BasicBlock
 	env      *Env // contract environment of the unit (top frame)
 
 	localNames  map[string]*ssa.Alloc
@@ -62,15 +63,15 @@ type Frame struct {
 }
 
 type loopInfo struct {
-	header  *ssa.BasicBlock
-	blocks  map[*ssa.BasicBlock]bool
-	backSrc []*ssa.BasicBlock
-	ordinal int
-	spec    *LoopSpec
-	cutIndex int   // event index at which the loop was cut (modular loops)
-	idxKey  string // rangeindex local key, if any
-	iterVal ssa.Value
-	line    int
+	header   *ssa.BasicBlock
+	blocks   map[*ssa.BasicBlock]bool
+	backSrc  []*ssa.BasicBlock
+	ordinal  int
+	spec     *LoopSpec
+	cutIndex int    // event index at which the loop was cut (modular loops)
+	idxKey   string // rangeindex local key, if any
+	iterVal  ssa.Value
+	line     int
 }
 
 type exit struct {
@@ -270,6 +271,7 @@ func (u *UnitGen) execRegion(fr *Frame, entry *ssa.BasicBlock, region map[*ssa.B
 			continue
 		}
 		cur := u.merge(label, ins)
+		fr.curBlock = b
 		if li := fr.loopOf(b); li != nil && li != skipCut {
 			cur = u.cutLoop(fr, li, cur)
 		}
@@ -404,6 +406,8 @@ func (u *UnitGen) cutLoop(fr *Frame, li *loopInfo, st *State) *State {
 	// name created since the havoc is the same object in every iteration.
 	outerNames := u.newNames
 	u.newNames = map[string]bool{}
+	outerDefs := u.newDefs
+	u.newDefs = map[string]string{}
 	tmp := st.clone()
 	for _, k := range keys {
 		if strings.HasPrefix(k, "region:") {
@@ -429,20 +433,60 @@ func (u *UnitGen) cutLoop(fr *Frame, li *loopInfo, st *State) *State {
 	u.dry--
 	u.trackers = u.trackers[:len(u.trackers)-1]
 	newNames := u.newNames
+	newDefs := u.newDefs
 	u.newNames = outerNames
+	u.newDefs = outerDefs
 	if outerNames != nil {
 		for k := range newNames {
 			outerNames[k] = true
 		}
+		for k, v := range newDefs {
+			outerDefs[k] = v
+		}
 	}
 	restore()
-	invariantTerm := func(t string) bool {
-		for _, tokn := range strings.FieldsFunc(t, func(r rune) bool { return r == ' ' || r == '(' || r == ')' }) {
-			if newNames[tokn] {
-				return false
-			}
+	// expandInvariant rewrites a term of the dry run into one over names that exist at the loop
+	// head: names introduced by define-fun inside the body are replaced by their definitions;
+	// a name that was declared (havoced) inside the body makes the term iteration-dependent.
+	var expandInvariant func(t string, depth int) (string, bool)
+	expandInvariant = func(t string, depth int) (string, bool) {
+		if depth > 12 || len(t) > 4000 {
+			return "", false
 		}
-		return true
+		var sb strings.Builder
+		i := 0
+		for i < len(t) {
+			c := t[i]
+			if c == ' ' || c == '(' || c == ')' {
+				sb.WriteByte(c)
+				i++
+				continue
+			}
+			j := i
+			for j < len(t) && t[j] != ' ' && t[j] != '(' && t[j] != ')' {
+				j++
+			}
+			tokn := t[i:j]
+			i = j
+			if !newNames[tokn] {
+				sb.WriteString(tokn)
+				continue
+			}
+			def, ok := newDefs[tokn]
+			if !ok {
+				return "", false
+			}
+			x, ok := expandInvariant(def, depth+1)
+			if !ok {
+				return "", false
+			}
+			sb.WriteString(x)
+		}
+		return sb.String(), true
+	}
+	invariantTerm := func(t string) bool {
+		_, ok := expandInvariant(t, 0)
+		return ok
 	}
 
 	// ---- the cut
@@ -476,9 +520,10 @@ func (u *UnitGen) cutLoop(fr *Frame, li *loopInfo, st *State) *State {
 				case w.fresh:
 					hasFresh = true
 				case invariantTerm(w.ref.S):
-					if !seen[w.ref.S] {
-						seen[w.ref.S] = true
-						fixed = append(fixed, w.ref)
+					x, _ := expandInvariant(w.ref.S, 0)
+					if !seen[x] {
+						seen[x] = true
+						fixed = append(fixed, Term{x, w.ref.Sort})
 					}
 				default:
 					precise = false
@@ -534,6 +579,13 @@ func (u *UnitGen) cutLoop(fr *Frame, li *loopInfo, st *State) *State {
 				u.assumeType(ns, nv, ty)
 			}
 		}
+	}
+	if u.dry == 0 && len(trk.claimed) > 0 {
+		al := &activeLoop{li: li, fr: fr, headTop: u.top(ns), keys: map[string]bool{}}
+		for k := range trk.claimed {
+			al.keys[k] = true
+		}
+		u.activeLoops = append(u.activeLoops, al)
 	}
 	for _, pa := range u.pendingAxioms {
 		u.heapAxiom(ns, pa.key, pa.arr)
@@ -707,7 +759,7 @@ func (u *UnitGen) anchoredAsserts(fr *Frame, st *State, file string, line int) {
 	}
 	for i := range u.contract.Asserts {
 		a := &u.contract.Asserts[i]
-		if !strings.Contains(lines[line-1], a.Anchor) {
+		if a.Dead || !strings.Contains(lines[line-1], a.Anchor) {
 			continue
 		}
 		a.Hits++
